@@ -239,6 +239,18 @@ def _acc_names(body, env) -> List[str]:
     return out
 
 
+def _prealloc_names(frame, body, env) -> List[str]:
+    """Float arrays preallocated with np.zeros(N) that the body fills by `A[position] = value`."""
+    out = []
+    for n in ast.walk(ast.Module(body=list(body), type_ignores=[])):
+        if isinstance(n, ast.Assign) and len(n.targets) == 1 and isinstance(n.targets[0], ast.Subscript) and isinstance(n.targets[0].value, ast.Name):
+            nm = n.targets[0].value.id
+            v = env.get(nm)
+            if nm not in out and (frame.fi.qualname, nm) in frame.ev.prealloc and isinstance(v, Rat) and v.is_zero():
+                out.append(nm)
+    return out
+
+
 def _stored(body) -> List[str]:
     out = []
     for n in ast.walk(ast.Module(body=list(body), type_ignores=[])):
@@ -247,7 +259,7 @@ def _stored(body) -> List[str]:
     return out
 
 
-def run_body(frame, body, benv, accs, poison: Dict[str, Rat], stored_names=()):
+def run_body(frame, body, benv, accs, poison: Dict[str, Rat], stored_names=(), pre=(), pos=None):
     """Evaluate one pass of `body`; returns (events per accumulator, end env).  Raises NoSummary."""
     from .gvn import Frame, Unsupported
     fr = Frame(frame.ev, frame.fi, frame.depth)
@@ -265,6 +277,9 @@ def run_body(frame, body, benv, accs, poison: Dict[str, Rat], stored_names=()):
     for e in fr.events:
         if e.kind in ("append", "extend") and e.target in per:
             per[e.target].append((e.guard, e.args[0], e.kind == "extend"))
+        elif e.kind == "store" and e.target in pre and e.target in per and len(e.args) == 2 and pos is not None \
+                and isinstance(e.args[0], Rat) and e.args[0].equals(pos):
+            per[e.target].append((e.guard, e.args[1], False))        # A[position] = value: the value of slot `position`
         elif e.kind in ("call", "return"):
             continue
         elif e.kind == "aug" and e.target in stored_names:
@@ -297,6 +312,8 @@ def _summarise(frame, target, iter_node, body, env, guard: G, node) -> bool:
     ev = frame.ev
     depth = ev.gen_depth
     accs = _acc_names(body, env)
+    pre = [n for n in _prealloc_names(frame, body, env) if n not in accs]
+    accs = accs + pre
     stored = _stored(body)
     tnames = [n.id for n in ast.walk(target) if isinstance(n, ast.Name)]
     poison = {a: ev.symbol(a + "@acc") for a in accs}
@@ -388,6 +405,11 @@ def _summarise(frame, target, iter_node, body, env, guard: G, node) -> bool:
                     raise NoSummary("range step is not a positive constant")
                 step = ra[2]
             bindings = {target.id: var}
+        elif _strided_zip(frame, target, iter_node, env) is not None:
+            # zip(a[o1::s], a[o2::s], ..): position v = 0, s, 2s, .. visits a[o1+v], a[o2+v], ..; the shortest member ends it
+            base_, offs_, step = _strided_zip(frame, target, iter_node, env)
+            lo, hi = Rat.const(0), ev.length_of(base_).sub(Rat.const(max(offs_)))
+            bindings = {e_.id: anf.opaque("at", base_, Rat.const(o_).add(var), array=False) for e_, o_ in zip(target.elts, offs_)}
         else:
             from .rules.common import bind_loop
             fake = ast.For(target=target, iter=iter_node, body=list(body), orelse=[])
@@ -412,7 +434,7 @@ def _summarise(frame, target, iter_node, body, env, guard: G, node) -> bool:
             old = ev.gen_depth
             ev.gen_depth = depth + 1
             try:
-                return run_body(frame, body, base_env(dict(bindings, **extra)), accs, poison, stored)
+                return run_body(frame, body, base_env(dict(bindings, **extra)), accs, poison, stored, pre, var)
             finally:
                 ev.gen_depth = old
         per, end, names = attempt({})
@@ -475,6 +497,10 @@ def _summarise(frame, target, iter_node, body, env, guard: G, node) -> bool:
                 if n not in closed and mentions(end.get(n), recnames):
                     raise NoSummary(f"{n} depends on a carried variable")
         # nothing but accumulators / recurrences / temporaries may use the poison
+        for a in pre:
+            # every slot is written exactly once: one unconditional store per position 0 .. N-1
+            if not (len(per[a]) == 1 and per[a][0][0].kind == "true" and lo.is_zero() and step.is_const() == 1 and hi.equals(ev.prealloc[(frame.fi.qualname, a)])):
+                raise NoSummary(f"{a}: the preallocated array is not filled once at every position")
         for a in accs:
             if per[a]:
                 results[a] = [mk_gen(depth, lo, hi, step, per[a])]
@@ -495,7 +521,12 @@ def _summarise(frame, target, iter_node, body, env, guard: G, node) -> bool:
         if guard.kind != "true":
             items = [Gen(depth, None, None, None, [(guard, Vec(items, "list"), True)], ranged=False)] if items else []
         cur = env[a]
-        if isinstance(cur, Vec):
+        if a in pre:
+            if guard.kind != "true" or not items:
+                raise NoSummary(f"{a}: conditional fill of a preallocated array")
+            env[a] = Vec(flatten(items), "list")
+            ev.prealloc.pop((frame.fi.qualname, a), None)
+        elif isinstance(cur, Vec):
             env[a] = Vec(flatten(list(cur.items) + items), "list")
         elif items:
             frame.events.append(Event(TRUE, "extend", a, (Vec(flatten(items), "list"),), node, frame.havoc_depth))
@@ -506,6 +537,37 @@ def _summarise(frame, target, iter_node, body, env, guard: G, node) -> bool:
         else:
             env[n] = v
     return True
+
+
+def _strided_zip(frame, target, iter_node, env):
+    """(array, offsets, step) for `zip(a[o1::s], a[o2::s], ..)` over one flat array with a constant step >= 2."""
+    if not (isinstance(iter_node, ast.Call) and isinstance(iter_node.func, ast.Name) and iter_node.func.id == "zip" and not iter_node.keywords
+            and len(iter_node.args) >= 2 and isinstance(target, (ast.Tuple, ast.List)) and len(target.elts) == len(iter_node.args)
+            and all(isinstance(e_, ast.Name) for e_ in target.elts)
+            and all(isinstance(a_, ast.Subscript) and isinstance(a_.slice, ast.Slice) and a_.slice.step is not None for a_ in iter_node.args)):
+        return None
+    from .gvn import Unsupported
+    base, step, offs = None, None, []
+    for a_ in iter_node.args:
+        try:
+            v = frame.expr(a_, env)
+        except Unsupported:
+            return None
+        at_ = v.atoms() if isinstance(v, Rat) else []
+        if not (len(at_) == 1 and at_[0].name == "stepslice" and v.equals(Rat.from_atom(at_[0])) and len(at_[0].args) == 4):
+            return None
+        b_, lo_, hi_, st_ = at_[0].args
+        o_ = 0 if lo_.symbols() == {"None"} else lo_.is_const()
+        if o_ is None or o_ < 0 or Fraction(o_).denominator != 1 or hi_.symbols() != {"None"} or st_.is_const() is None or st_.is_const() < 2:
+            return None
+        if base is None:
+            base, step = b_, st_
+        elif not (base.equals(b_) and step.equals(st_)):
+            return None
+        offs.append(int(o_))
+    if max(offs) >= step.is_const():
+        return None
+    return base, offs, step
 
 
 def _sigma(ev, F: Rat, var: Rat, lo: Rat, hi: Rat, step: Rat, depth: int) -> Rat:
